@@ -222,6 +222,11 @@ theorem value_of_tb_aux (E : Env) (hB : BInj E) (t : Pkg) : ∀ t', tb E t = tb 
 theorem value_of_tb (E : Env) (hB : BInj E) {t t' : Pkg} (h : tb E t = tb E t') : value E t = value E t' :=
   value_of_tb_aux E hB t t' h
 
+/-- what the download logic needs of the Build-Id: packages with equal Build-Ids have equal results -/
+def BidSound (E : Env) : Prop := ∀ t t' : Pkg, tb E t = tb E t' → value E t = value E t'
+
+theorem bidSound_of_inj (E : Env) (hB : BInj E) : BidSound E := fun _ _ h => value_of_tb E hB h
+
 /-! ### the invariant of one workspace -/
 
 structure InvLoc (E : Env) (ρ : Vid → RSig) (l : Loc) : Prop where
